@@ -1198,10 +1198,19 @@ class Engine:
         if not m:
             return [(base_item, path)]
         if m.group(1) == "zip":
-            # `it.zip(0..)` numbers the elements like enumerate (the pair is (element, number)); any other partner is opaque
+            # `it.zip(0..)` numbers the elements like enumerate (the pair is (element, number)), `(0..).zip(it)` likewise with the
+            # pair the other way round; any other partner is opaque
+            def from_zero(x):
+                x = self.deref_val(path, x) if x is not None and x[0] == "ref" else x
+                return x is not None and x[0] == "adt" and str(x[1]).endswith("RangeFrom") and bool(x[3]) and x[3][0] == ("int", 0)
             other = src[2][1] if len(src[2]) > 1 else None
-            other = self.deref_val(path, other) if other is not None and other[0] == "ref" else other
-            if not (other is not None and other[0] == "adt" and str(other[1]).endswith("RangeFrom") and other[3] and other[3][0] == ("int", 0)):
+            if from_zero(src[2][0]) and other is not None:
+                outs_z = []
+                other = self.deref_val(path, other) if other[0] == "ref" else other
+                for el, p_ in self.iter_elements(path, bb, other, base_item, depth + 1):
+                    outs_z.append((el if el is None or el in (("dead",), ("stop",)) else ("tuple", (("sym", "index@bb%d" % bb), el)), p_))
+                return outs_z
+            if not from_zero(other):
                 return [(("app", nm, (base_item,)), path)]
         meth = m.group(1)
         if meth == "flat_map":
